@@ -343,6 +343,21 @@ def audit(ctx):
         if more and 'totals' in ref and sum(i[5] for i in items) <= sum(
                 ref['totals']):
             more = False
+        # ... and some condition must be about something the statement did
+        # not depend on before (the same predicates in another polarity /
+        # combination are the arms of one selection written in another
+        # order)
+        if more and known:
+            def atom(txt):
+                try:
+                    e = ast.parse(txt, mode='eval').body
+                except SyntaxError:
+                    return txt
+                return min(txt, ast.unparse(negate(e)))
+            refatoms = {atom(c) for c in known}
+            new = [c for c in worst[1] if atom(c) not in refatoms]
+            if not new:
+                more = False
         ctx.check(rule, f'{fnname}: `{worst[3]}`', not more,
                   f'runs under {have} condition(s), reference {want}: it '
                   f'now also depends on `{new[0] if new else worst[1]}` -- '
